@@ -220,13 +220,28 @@ Arguments prob_val ds%N_scope cs%N_scope.
 Definition enc_dom (d : dom) : val := VL [VZ (Z.of_N (fst d)); VL (map VB (snd d))].
 (* stream "problem": the Problem as find_constraint_satisfaction sets it up — domains (sorted by
    variable, the dict order being hash order) and the constraints' truth tables in order *)
+(* The constraints are compared as a SET of truth tables: _compiled_constraints is cached on the
+   DepSet, whose equality/hash ignore order and multiplicity of the top-level items, so the order
+   and multiplicity of the recorded constraints depend on which equal DepSet was compiled first.
+   A conjunction does not care. *)
+Definition ckey (c : constr) : N :=
+  let vs := dedup (snd c) in
+  N.lor (mask vs)
+        (N.shiftl (fold_left (fun acc on => N.lor acc (N.shiftl 1 (mask on))) (filter (fst c) (subsets vs)) 0%N) 8).
+Fixpoint insert_uniq (x : N * val) (l : list (N * val)) : list (N * val) :=
+  match l with
+  | [] => [x]
+  | y :: r => if N.eqb (fst x) (fst y) then l
+              else if N.ltb (fst x) (fst y) then x :: l else y :: insert_uniq x r
+  end.
+Definition sort_uniq (l : list (N * val)) : list (N * val) := fold_right insert_uniq [] l.
 Definition run_problem (i : fcs_input) : val :=
   let '(rs, (iuse, ft, ff, pt)) := i in
   match problem rs iuse ft ff pt with
   | Fail e => enc_err e
   | Ok pc =>
       VL [VL (map snd (sort_by (map (fun d => (fst d, enc_dom d)) (fst pc))));
-          VL (map enc_constr (snd pc))]
+          VL (map snd (sort_uniq (map (fun c => (ckey c, enc_constr c)) (snd pc))))]
   end.
 
 (* stream "solver": a raw Problem — domains and constraints given by truth tables
